@@ -95,6 +95,7 @@ class DiameterAssociation(object):
         self.base = base
 
         self.state_is_active = False
+        self.stop_requested = False
         self.transport = None
         self.error_has_raised = False
         self._stop_threads = False
